@@ -870,6 +870,33 @@ func paramSizes(der []byte, emit func([]byte)) {
 			put([]byte{0x7f, 0xff, 0xff, 0xff})
 			put([]byte{0x00, 0xff, 0xff, 0xff, 0xff})
 			put([]byte{0x01, 0x00})
+			// an OPTIONAL INTEGER member the encoder leaves out (PBKDF2-params.keyLength, a DEFAULT iteration count ...)
+			// written out behind this one, with small, negative and large values
+			for _, v := range [][]byte{{0}, {1}, {16}, {32}, {33}, {0x7f}, {0xff}, {0xe0}, {0x80}, {0x00, 0x80}, {0x01, 0x00}, {0x80, 0x00}, {0xff, 0x7f}, {0x7f, 0xff, 0xff, 0xff}, {0x80, 0x00, 0x00, 0x00}} {
+				if sib, ok := insertAfter(der, tl, append([]byte{0x02, byte(len(v))}, v...)); ok {
+					emit(sib)
+				}
+			}
 		}
 	}
+}
+
+// insertAfter re-encodes der with the element extra placed right behind the TLV tl inside tl's parent; all enclosing
+// lengths are adjusted. ok=false when tl has no enclosing constructed TLV.
+func insertAfter(der []byte, tl rder.TLV, extra []byte) ([]byte, bool) {
+	var parent *rder.TLV
+	for _, c := range rder.Walk(der) {
+		c := c
+		if c.Tag&0x20 != 0 && c.Start < tl.Start && tl.Start+tl.HdrLen+tl.Len <= c.Start+c.HdrLen+c.Len {
+			parent = &c // the innermost one wins: Walk lists outer before inner
+		}
+	}
+	if parent == nil {
+		return nil, false
+	}
+	ps, pe := parent.Start+parent.HdrLen, parent.Start+parent.HdrLen+parent.Len
+	cut := tl.Start + tl.HdrLen + tl.Len
+	body := append(append(append([]byte(nil), der[ps:cut]...), extra...), der[cut:pe]...)
+	p := *parent
+	return gen.DERReplaceWhere(der, func(x rder.TLV, _ []byte) bool { return x.Start == p.Start && x.Tag == p.Tag && x.Len == p.Len }, p.Tag, func([]byte) []byte { return body })
 }
